@@ -438,5 +438,33 @@ int main(int argc, char** argv) {
         total.n["evaluations"] = total.n["traces"];
         return done(0);
     }
+    if (a.mode == "render") {
+        // C03 family 5: malformed domain names and addresses straight into every text renderer (no file needed)
+        std::vector<std::string> names; static const unsigned char NA[] = {0, 1, 2, 3, 0x3f, 0x40, 0xc0, 0xff};
+        names.push_back("");
+        for (unsigned char x : NA) { names.push_back(std::string(1, (char)x)); for (unsigned char y : NA) { names.push_back(std::string{(char)x, (char)y}); for (unsigned char z : NA) names.push_back(std::string{(char)x, (char)y, (char)z}); } }
+        // structured: k labels of length 1, then a label whose length byte overshoots the end by 0..3 (with and without root label); total lengths up to 300
+        for (int k : {0, 1, 2, 5, 19, 20, 21, 63, 100, 127, 149}) for (int over = -1; over <= 3; over++) for (int lastlen : {1, 7, 25, 63, 255}) {
+            std::string n; for (int i = 0; i < k; i++) { n.push_back(1); n.push_back('a'); }
+            int payload = lastlen - over; if (payload < 0) payload = 0; n.push_back((char)lastlen); n.append((size_t)payload, 'b'); names.push_back(n); names.push_back(n + std::string(1, '\0')); }
+        for (size_t L : {(size_t)40, (size_t)64, (size_t)255, (size_t)256, (size_t)300}) { names.push_back(std::string(L, '\x01')); names.push_back(std::string(L, '\xff')); std::string n(L, '\x01'); n[L / 2] = 25; names.push_back(n); }
+        std::vector<std::string> addrs; for (size_t l = 0; l <= 20; l++) { addrs.push_back(std::string(l, '\0')); addrs.push_back(std::string(l, '\xff')); std::string p(l, 0); for (size_t i = 0; i < l; i++) p[i] = (char)(i * 37 + 1); addrs.push_back(p); }
+        struct RCase { int kind; size_t idx; };
+        std::vector<RCase> cases; for (size_t i = 0; i < names.size(); i++) cases.push_back({0, i}); for (size_t i = 0; i < addrs.size(); i++) cases.push_back({1, i});
+        auto run = [&](const RCase& c) {
+            if (c.kind == 0) { const std::string& n = names[c.idx]; CDNS::GenericQueryResponse g; g.query_name = n; g.bailiwick = n; CDNS::GenericResourceRecord r; r.name = n; r.rdata = n; g.query_questions = std::vector<CDNS::GenericResourceRecord>{r}; g.response_answers = std::vector<CDNS::GenericResourceRecord>{r, r}; consume::use(g.string()); consume::use(r.string()); }
+            else { const std::string& ad = addrs[c.idx]; CDNS::GenericQueryResponse g; g.client_ip = ad; g.server_ip = ad; consume::use(g.string()); CDNS::GenericAddressEventCount e; e.ip_address = ad; consume::use(e.string()); CDNS::GenericMalformedMessage m; m.client_ip = ad; m.server_ip = ad; m.mm_payload = ad; consume::use(m.string()); }
+        };
+        // valgrind pass (uninitialised reads inside live std::string storage are invisible to ASan): run as `--valgrind-child` on the plain build
+        if (a.kv.count("child")) { for (auto& c : cases) run(c); printf("{\"counters\":{},\"distinct_outcomes\":0,\"outcomes\":[],\"samples\":[],\"violations\":[],\"violation_counts\":{},\"notes\":[],\"deadline_hit\":false}\n"); rm_rf(g_dir); return 0; }
+        if (!a.replay.empty()) { std::string s = slurp(a.replay); int k; unsigned long i; if (sscanf(s.c_str(), "render=%d;idx=%lu", &k, &i) != 2) return done(2);
+            Pool rp(1, 60); rp.run(1, [&](uint64_t, Result& R) { run({k, i}); R.count("traces"); }, [&](uint64_t, const std::string& d, Result& R) { R.violation("render|" + crash_key(d), d.substr(0, 2000), s); }, total); return done(total.viol.empty() ? 0 : 1); }
+        Pool pool(a.jobs, 60);
+        pool.run(cases.size(), [&](uint64_t i, Result& R) { set_note("render=" + std::to_string(cases[i].kind) + ";idx=" + std::to_string(cases[i].idx)); run(cases[i]); R.count("traces"); R.count("nontrivial"); R.outcome(cases[i].kind ? "address" : "name"); if (i % 211 == 0) R.sample((cases[i].kind ? "address " : "name ") + hex(cases[i].kind ? addrs[cases[i].idx] : names[cases[i].idx]).substr(0, 80)); },
+                 [&](uint64_t, const std::string& d, Result& R) { R.violation("render|" + crash_key(d), "renderer crashed: " + d.substr(0, 2000), pool.last_note); }, total);
+        total.n["evaluations"] = total.n["traces"];
+        total.notes.push_back(std::to_string(names.size()) + " names, " + std::to_string(addrs.size()) + " addresses through GenericQueryResponse / GenericResourceRecord / GenericAddressEventCount / GenericMalformedMessage ::string()");
+        return done(0);
+    }
     fprintf(stderr, "unknown mode\n"); return done(2);
 }
